@@ -383,7 +383,7 @@ func (r *Reader) traverseNodeFiltered(n *html.Node, ctx *parseContext, elements 
 					Items:   ctx.listItems,
 					Ordered: ctx.listOrdered,
 				})
-				ctx.inList = false
+				// still inside the list: later items start a new run
 				ctx.listItems = nil
 			}
 
@@ -406,7 +406,6 @@ func (r *Reader) traverseNodeFiltered(n *html.Node, ctx *parseContext, elements 
 					Items:   ctx.listItems,
 					Ordered: ctx.listOrdered,
 				})
-				ctx.inList = false
 				ctx.listItems = nil
 			}
 
@@ -496,7 +495,6 @@ func (r *Reader) traverseNodeFiltered(n *html.Node, ctx *parseContext, elements 
 					Items:   ctx.listItems,
 					Ordered: ctx.listOrdered,
 				})
-				ctx.inList = false
 				ctx.listItems = nil
 			}
 
